@@ -517,8 +517,8 @@ def gcc_replay(chk, c, structs, src):
 def run(chk, tier, seed):
     common.build_capy()
     rnd = random.Random(seed)
-    structs = [Struct('K%d' % i, f) for i, f in enumerate(CURATED)] + [gen_struct(rnd, i) for i in range(10 if tier == 'quick' else 60)]
-    cases = gen_cases(rnd, structs, 30 if tier == 'quick' else 400)
+    structs = [Struct('K%d' % i, f) for i, f in enumerate(CURATED)] + [gen_struct(rnd, i) for i in range(10 if tier == 'quick' else 150)]
+    cases = gen_cases(rnd, structs, 30 if tier == 'quick' else 1600)
     src, refs = capy_sources(structs, cases)
     mod, out = clifcheck.compile_module('C19', 'abi', src + refs + 'main :: () { refs(); }\n')
     if mod is None:
